@@ -422,6 +422,18 @@ def replay(env, vc, model):
     conc = Concretizer(model)
     # a path on which the external ``eval`` raised: the native postponed functions get annotations that cannot be evaluated
     conc.unevaluable = any(e[0] == 'external-raise' and e[1] == 'eval' for e in env['r'].ctx.events)
+    if conc.unevaluable:
+        # the native functions spell annotations as bare names: evaluating one can only fail with NameError
+        from vf.objects import class_name
+        for e in env['r'].ctx.events:
+            if e[0] == 'external-raise' and e[1] == 'eval':
+                t = e[2].typ
+                if getattr(t, '_vf_symbolic_exc', False):
+                    cls = class_name(t.universe[model.eval(t.term, model_completion=True).as_long()])
+                    if cls != 'NameError':
+                        return dict(status='no-replay', op='dropin:' + env['unit'], note='the counterexample has the evaluation of an annotation raise %s; the native '
+                                    'harness spells annotations as bare names, whose evaluation can only raise NameError (an attribute expression such as '
+                                    'typing.OnlyInStubs raises AttributeError)' % cls)
     info = env['info']
     sig = conc.build_sig(info)
     level = 'param' if unit.startswith('param') else 'sig'
